@@ -541,6 +541,7 @@ def run(ctx):
     check_reverse_forms(ctx, F)
     check_state_writers(ctx, F)
     import props.C04 as c04
+    c04.check_export_conversions(ctx, F)   # From<AnsCoder> for Vec is the shared export
     c04.check_refill_threshold(ctx, F)     # import loops establish the invariant the decoder's refill test maintains
     c04.check_top_word_nonzero(ctx, F, anchors.ans_import_loops(F)[1], 'stream::stack::AnsCoder::from_compressed', 'into_compressed')   # export/import identity
     if ctx.tier == 'thorough':
